@@ -101,6 +101,15 @@ def gen(seed, index):
     calls = []
     for _ in range(rng.randint(1, 15)):
         calls.append(calls[-1] if calls and rng.random() < 0.5 else rng.randint(0, 4))
+    if rng.random() < 0.5:
+        # richer histories: a second wrapper on the same file, the argument object mutated in place, the file removed
+        ops = []
+        for a in calls:
+            r = rng.random()
+            if r < 0.08:
+                ops.append(["del"])
+            ops.append([rng.choice(["c", "c", "c2", "m", "m"]), a])
+        return ["lazy2", rng.choice([0, 0, 0, 1])] + ops
     return ["lazy", rng.choice([0, 0, 0, 1])] + calls
 
 
@@ -236,6 +245,22 @@ def oracle(case, io, mo):
                 exp[int(kw)] = d[int(s_)]
         got = {int(a): int(b) for a, b in io[1:]}
         return None if got == exp else "keyword arguments wrong"
+    if k == "lazy2":
+        force = case[1] in ("1", 1)
+        prev = None
+        for op, r in zip(case[2:], io[1:]):
+            if op[0] == "del":
+                prev = None
+                continue
+            a = int(op[1])
+            v, ran = r
+            if int(v) != a * a + 1:
+                return f"the cached function returned {v} for argument {a} ({op[0]}), the bare function returns {a * a + 1}"
+            exp_ran = force or prev is None or prev != a
+            if (ran in ("1", 1)) != exp_ran:
+                return f"argument {a} ({op[0]}) after {prev}: recomputed={ran}, expected {exp_ran}"
+            prev = a
+        return None
     if k == "lazy":
         force = case[1] in ("1", 1)
         prev = None
@@ -285,6 +310,8 @@ def nontrivial(case, io):
         return len(set(d)) < len(d) or len(d) >= 3
     if k in ("nget", "nset", "ndel"):
         return len(case) - (3 if k == "nset" else 2) >= 2
+    if k == "lazy2":
+        return any(op[0] in ("m", "c2", "del") for op in case[2:])
     if k == "lazy":
         c = case[2:]
         return any(c[i] == c[i + 1] for i in range(len(c) - 1)) and len(set(c)) > 1
